@@ -39,6 +39,20 @@ def idx(prog, scope, floor, an=None, table=None):
         if not fn.blocks:
             continue
         subs = [n for n in fn.nodes.values() if n['k'] == 'ArraySubscriptExpr' and 'bound' in n]
+        # arrays declared `extern T name[];`: the bound is the length of the initialiser of the definition (scalar element
+        # types only: the opcode tables end in a sentinel row and are walked up to it, T-TBL decides those)
+        for n in fn.nodes.values():
+            if n['k'] == 'ArraySubscriptExpr' and 'bound' not in n:
+                b_ = strip(kids(n)[0], casts=True)
+                if b_['k'] == 'DeclRefExpr' and b_.get('dk') == 'global' and not b_['n'].startswith('table_'):
+                    et = fn.type(n) or ''
+                    if 'struct' in et or et.startswith('_'):
+                        continue
+                    gl = [g for g in prog.globals.get(b_['n'], ()) if g.get('init') is not None and g['init']['k'] == 'InitListExpr']
+                    if gl:
+                        n = dict(n)
+                        n['bound'] = len(kids(gl[0]['init']))
+                        subs.append(n)
         if not subs:
             continue
         nfun += 1
